@@ -269,6 +269,13 @@ def grid_for_type(ctx, t):
     # unknown / foreign attribute names
     foreign = ['foo', 'Note', '', 'bytes', '__class__', '_x'] + \
         [a for a in list(midi1.DOMAIN) + ['data'] if a not in midi1.ATTRS[t]]
+    # slips of the pen: every real name of this type (time and type included) misspelt the ways people misspell
+    real = set(midi1.ATTRS[t]) | {'time', 'type'}
+    for a in sorted(real):
+        for typo in (a.capitalize(), a.upper(), a[:-1], a[1:], a + 's', a + '_', '_' + a, a[0] + a[2:], a[1] + a[0] + a[2:],
+                     a.replace('e', 'a', 1), a + a[-1]):
+            if typo and typo not in real and typo not in foreign and typo.isidentifier():
+                foreign.append(typo)
     for name in foreign:
         for entry in ENTRY:
             if entry in TEXT_ENTRY and not name:
@@ -388,6 +395,63 @@ BAD_TYPES = ['bogus', '', 'NOTE_ON', 'note on', 'set_tempo', 'end_of_track', 'un
              None, 5, 0x90, 1.5, b'note_on', ('note_on',)]
 
 
+ALIAS_LIKE = ['cc', 'pc', 'pitch_bend', 'pitchbend', 'bend', 'channel_pressure', 'poly_pressure', 'polyphonic_aftertouch',
+              'key_pressure', 'system_exclusive', 'sys_ex', 'SysEx', 'syx', 'noteon', 'note-on', 'NoteOn', 'Note_On', 'noteoff',
+              'program', 'control', 'controller', 'mtc', 'time_code', 'song_position', 'song_position_pointer', 'song', 'tune',
+              'timing_clock', 'active_sense', 'system_reset', 'cont', 'sysex ', ' sysex', 'sysex\n', 'note_on\x00']
+
+
+def alias_like_types(ctx):
+    """Other spellings of the 18 type names.  Whether the constructor knows such a name is its business; if it does, what
+    comes out is a message like any other: one of the 18 types, every attribute in range, sysex data immutable and the
+    message's own, a rejected += without effect."""
+    n = 0
+    for name in ALIAS_LIKE:
+        for entry in ('ctor', 'from_dict', 'from_str'):
+            case = {'kind': 'alias-like-type', 'type': name, 'entry': entry}
+            mine = [1, 2, 3]
+            try:
+                if entry == 'ctor':
+                    r = Message(name)
+                elif entry == 'from_dict':
+                    r = Message.from_dict({'type': name})
+                else:
+                    if not name.strip() or name != name.strip() or '\x00' in name:
+                        continue
+                    r = Message.from_str(name)
+            except OKEXC:
+                ctx.count('out-of-domain rejected')
+                n += 1
+                continue
+            except Exception as exc:
+                ctx.check('exception class', False, f'{entry}:type:{type(exc).__name__}', case, f'{type(exc).__name__}: {exc}')
+                n += 1
+                continue
+            n += 1
+            why = midi1.valid(r)
+            ok = why is None
+            ctx.check('state valid after accept', ok, f'{entry}:alias-type-invalid-message', case, rv(r))
+            if not ok or 'data' not in vars(r):
+                continue
+            # a sysex by another name
+            try:
+                r = Message(name, data=mine) if entry != 'from_dict' else Message.from_dict({'type': name, 'data': mine})
+                mine.append(200)
+                ctx.check('state valid after accept', tuple(r.data) == (1, 2, 3) and isinstance(r.data, tuple),
+                          f'{entry}:alias-type-keeps-callers-list', case, rv(r.data))
+                before = snap(r)
+                try:
+                    r.data += [4, 200]
+                    ctx.check('out-of-domain rejected', False, f'{entry}:alias-type-iadd-accepted', case, rv(r.data))
+                except OKEXC:
+                    ctx.check('reject leaves original unchanged', unchanged(r, before), f'{entry}:alias-type-iadd-mutated', case, rv(r.data))
+                c = r.copy()
+                ctx.check('state valid after accept', c.data is not mine and tuple(c.data) == tuple(r.data), f'{entry}:alias-type-copy', case, rv(c.data))
+            except OKEXC as exc:
+                ctx.check('documented value accepted', False, f'{entry}:alias-type-refuses-data', case, f'{type(exc).__name__}: {exc}')
+    return n
+
+
 def unknown_types(ctx):
     n = 0
     for bt in BAD_TYPES:
@@ -411,6 +475,7 @@ def unknown_types(ctx):
                 ctx.check('exception class', False, f'{entry}:type:{type(exc).__name__}', case,
                           f'{type(exc).__name__}: {exc}')
             n += 1
+    n += alias_like_types(ctx)
     # unhashable type names
     for bt in ([], {}):
         try:
